@@ -41,7 +41,7 @@ inductive CPred where
   | isAsciiControl               -- `c.is_ascii_control()`
   | isControl                    -- `c.is_control()` (Unicode Cc: C0, DEL, C1)
   | isAsciiGraphic               -- `c.is_ascii_graphic()`  0x21..=0x7E
-  | isAlphanumeric               -- `c.is_ascii_alphanumeric()`
+  | isAsciiAlphanumeric          -- `c.is_ascii_alphanumeric()`
   | or (p q : CPred)
   | and (p q : CPred)
   | not (p : CPred)
@@ -82,7 +82,7 @@ def CPred.eval (c : Char) : CPred → Bool
   | .isAsciiControl => decide (c.toNat < 32) || decide (c.toNat = 127)
   | .isControl => decide (c.toNat < 32) || (decide (127 ≤ c.toNat) && decide (c.toNat < 160))
   | .isAsciiGraphic => decide (0x21 ≤ c.toNat) && decide (c.toNat ≤ 0x7E)
-  | .isAlphanumeric => (decide (0x30 ≤ c.toNat) && decide (c.toNat ≤ 0x39)) || (decide (0x41 ≤ c.toNat) && decide (c.toNat ≤ 0x5A)) || (decide (0x61 ≤ c.toNat) && decide (c.toNat ≤ 0x7A))
+  | .isAsciiAlphanumeric => (decide (0x30 ≤ c.toNat) && decide (c.toNat ≤ 0x39)) || (decide (0x41 ≤ c.toNat) && decide (c.toNat ≤ 0x5A)) || (decide (0x61 ≤ c.toNat) && decide (c.toNat ≤ 0x7A))
   | .or p q => p.eval c || q.eval c
   | .and p q => p.eval c && q.eval c
   | .not p => !p.eval c
